@@ -51,6 +51,15 @@ func (p *service) processor() {
 			return
 		}
 
+		// The receiver only reads from the connection while a whole read block
+		// is free in the buffer. A message that does not fit into the buffer
+		// together with that block can never be completed: the receiver would
+		// wait for space and this loop for data, for good.
+		if int64(total) > p.in.size-int64(defaultReadBlockSize) {
+			log.Warningf("(%s) Message of %d bytes exceeds the limit of %d bytes", p.cid(), total, p.in.size-int64(defaultReadBlockSize))
+			return
+		}
+
 		msg, n, err := p.peekMessage(mtype, total)
 		if err != nil {
 			if !isEOF(err) {
